@@ -2,7 +2,7 @@
 import ast
 from sa.index import AnalysisError, FuncInfo
 from sa.paths import call_name
-from rules.common import txt, paths_of, loc, tests_on, Quiet
+from rules.common import txt, paths_of, loc, tests_on, Quiet, cmp_text, returned_values, guard_atoms
 
 CLS = 'setutils.IndexedSet'
 SPEC = {
@@ -35,6 +35,11 @@ MANIFEST = {
 
 
 def run(ctx):
+    from rules.common import require_fields
+    from rules.common import require_members, require_module_names
+    require_members(ctx.program, 'setutils.IndexedSet', ['_get_real_index', '_get_apparent_index', '_add_dead', '_cull', '_compact', 'remove', 'pop', 'add', 'iter_slice', 'index', 'update', 'clear'])
+    require_module_names(ctx.program, 'setutils', ['_MISSING'])
+    require_fields(ctx.program, 'setutils.IndexedSet', ['item_list', 'item_index_map', 'dead_indices'])
     prog = ctx.program
     ci = prog.cls(CLS)
 
@@ -152,9 +157,9 @@ def run(ctx):
         ctx.ob('T20.foreign', CLS, 'IndexedSet methods touch only their own slot list, index map and dead-interval table', True,
                loc=ci.module.relpath)
     ix = prog.func(CLS + '.index')
-    rets = [n for n in ast.walk(ix.node) if isinstance(n, ast.Return) and n.value is not None]
-    ok = bool(rets) and all(isinstance(r.value, ast.Call) and txt(r.value.func) == 'self._get_apparent_index' and
-                            'item_index_map[' in txt(r.value.args[0]) for r in rets)
+    rvs = [e for e, _, _ in returned_values(prog, ix, recv=ci) if e is not None]
+    ok = bool(rvs) and all(isinstance(e, ast.Call) and txt(e.func) == 'self._get_apparent_index' and e.args and
+                           'item_index_map[' in txt(e.args[0]) for e in rvs)
     ctx.ob('T15.app', ix.fq, 'index() returns the apparent position of the real slot stored in the map', ok, loc=ix.loc)
     sl = prog.func(CLS + '.iter_slice')
     w, paths = paths_of(prog, sl, recv=ci)
@@ -173,7 +178,7 @@ def run(ctx):
             for s in nd.body:
                 if isinstance(s, ast.Assign) and len(s.targets) == 1 and isinstance(s.targets[0], ast.Name) and s.targets[0].id in ('start', 'stop'):
                     v = s.targets[0].id
-                    norm[v] = (txt(nd.test).replace(v, 'X'), txt(s.value).replace(v, 'X'))
+                    norm[v] = (sorted(sorted(c) for c in guard_atoms(sl, s, v)), txt(s.value).replace(v, 'X'))
     ctx.ob('T25.sym', sl.fq, 'start and stop are normalised by the same test and expression (negative indexes handled alike)',
            'start' in norm and 'stop' in norm and norm['start'] == norm['stop'], loc=sl.loc, detail=str(norm))
     # ---- T16 operand flattening ------------------------------------------------------
